@@ -559,12 +559,15 @@ MALFORMED = {
     'date': ['Feb 30', 'Apr 31', 'Foo 1', 'Ma 1', 'March', '13', '--1301', '--0230', '--0100',
              'Jan 0', 'Jan 32', 'Jan 1 2020', 'Jan 1 Feb', 'Jan Feb 1', '1 1 Jan', 'Jan 1 x',
              'x Jan 1', '--011', '-0101', 'Juno 1', 'Marchx 1',
+             # a component in the middle with non-blank neighbours (the rest must not be glued together)
+             '1may5', '1 may5', '2jan9', 'ja1n 5',
              [13, 1], [2, 30], [0, 1], [1, 0], [1], [1, 2, 3], []],
     'datetime': ['2020-02-30 12:00', '2020-13-01 12:00', 'March 1 12:00', '2020 March 12:00',
                  '2020 1 12:00', '2020 March 1', '2020-03-01', '2020-03-01T12:00+01:00',
                  '2020-03-01T12:00Z', '20 March 1 12:00', '2019-02-29T00:00', '2019 Feb 29 0:00',
                  '2020 March 1 24:00', '2020 March 1 12:00 x', '2020 2021 March 1 12:00',
                  '2020 March April 1 12:00', '2020 March 1 2 12:00',
+                 'May 112:305 2024', 'ma2024y 5 10:00', '20may24 5 10:00', 'May 5 20 10:00 24',
                  [2020, 3, 1, 12], [2020, 3, 1, 12, 0, 0, 0, 0], [2019, 2, 29, 0, 0],
                  [2020, 3, 1, 24, 0], [2020, 3]],
 }
